@@ -253,6 +253,10 @@ func verifyFunction(l *Loaded, specs *Specs, ct *Contract) (rep *FuncReport, w *
 			if len(props) == 0 {
 				props = ct.Props
 			}
+			if as.Ord == 0 && as.Kind == "mapupdate" {
+				// "every map update": none left is not a failure by itself
+				continue
+			}
 			o := w.oblige("assert", fmt.Sprintf("at.%s%d.%s", as.Kind, as.Ord, as.Clause.Label), tTrue, tFalse, as.Clause.Star, props)
 			o.Result = &SolverResult{Status: "target-missing", Output: fmt.Sprintf("the contract attaches an assertion to %s #%d of %s, which is not in the function body (any more)", as.Kind, as.Ord, ct.Name)}
 		}
